@@ -299,7 +299,7 @@ def data_width(run):
     sl = []
     for g in [f] + [x for x in prog.real_fns() if x.kind == "Closure" and x.raw.get("parent") == f.id]:
         for b2, t2 in g.calls():
-            if (t2.get("resolved") or "").endswith("BigInt::slice"):
+            if (t2.get("resolved") or "").endswith("BigInt::slice") or (t2.get("resolved") or "").endswith("BigInt::checked_slice"):
                 sl.append((g, b2))
     run.check(bool(sl), R, R + "|data|slice-site", f.loc(), "the value is cut to the element width by BigInt::slice (%d site(s))" % len(sl), "mechanism not found: slice to the element width")
     # where the closure holding the slice is created / the slice is called in f
